@@ -202,6 +202,21 @@ def _call_effect(fav, args, kwargs, pos, ci, newreg):
     return None, OTHER
 
 
+def _callee_label(fav):
+    if fav[0] == "py":
+        return getattr(fav[1], "__name__", "call")
+    if fav[0] == "meth":
+        return "." + str(fav[2])
+    return "call"
+
+
+def strip_faults(mir):
+    """the same method IR with its fault sites (calls without protocol meaning) turned into no-ops"""
+    code = [(Ins("nop", pos=i.pos, err=i.err) if i.op == "fault" else i) for i in mir.code]
+    out = MethodIR(mir.name, mir.params, mir.defaults, code, mir.returns_self, mir.how)
+    return out
+
+
 def _exc_match(cav):
     """except <class>: does it catch the model's errors?  -> True/False/None(unknown)"""
     if cav[0] != "py" or not inspect.isclass(cav[1]):
@@ -432,6 +447,9 @@ def lower_bytecode(fn, ci, selfname=None):
             e, r = _call_effect(fav, args, kw, pos, ci, newreg)
             if e is not None:
                 res = e
+            elif fav[0] != "exitfn":
+                # a call without protocol meaning (print, format, write, flush, time, ...): it may RAISE
+                res = Ins("fault", [(-1, _callee_label(fav), pos, (fn.__name__, i.offset))], pos=pos)
             S.append(r)
         elif op == "CALL_FUNCTION_EX":
             if i.arg & 1:
@@ -442,6 +460,7 @@ def lower_bytecode(fn, ci, selfname=None):
                 pop()
             if f[0] in ("selfmeth", "exitfn") or (f[0] == "py" and _thread_kind(f[1])) or (f[0] == "meth" and f[2] in ("start", "cancel", "join", "acquire", "release")):
                 raise LoweringError("line %s: *args call of a tracked callable" % pos)
+            res = Ins("fault", [(-1, _callee_label(f), pos, (fn.__name__, i.offset))], pos=pos)
             S.append(OTHER)
         elif op in ("POP_JUMP_IF_TRUE", "POP_JUMP_IF_FALSE", "POP_JUMP_IF_NONE", "POP_JUMP_IF_NOT_NONE"):
             v = pop()
@@ -1156,10 +1175,13 @@ class _MethodAst(_AstLower):
             if star:
                 if f[0] in ("selfmeth", "exitfn") or (f[0] == "py" and _thread_kind(f[1])) or (f[0] == "meth" and f[2] in ("start", "cancel", "join", "acquire", "release")):
                     raise LoweringError("line %s: *args call of a tracked callable" % self.pos(n))
+                self.emit(Ins("fault", [(-1, _callee_label(f), self.pos(n), None)], pos=self.pos(n)))
                 return OTHER
             e, r = _call_effect(f, args, kw, self.pos(n), self.ci, self.newreg)
             if e is not None:
                 self.emit(e)
+            elif f[0] != "exitfn":
+                self.emit(Ins("fault", [(-1, _callee_label(f), self.pos(n), None)], pos=self.pos(n)))
             return r
         if t is ast.Compare:
             return self.ev_compare(n)
@@ -1325,6 +1347,8 @@ def traces(mir, limit=4000):
             item = (op, i.a)
         elif op == "call":
             item = ("call", i.a, canon(i.b, rm))
+        elif op == "fault":
+            item = ("fault",)
         else:
             item = (op, repr(i.a))
         if op in RAISING:
@@ -1462,83 +1486,83 @@ def toplevel_calls(calls):
 SEED_OPS = ("new", "start", "cancel", "join", "acq", "rel", "fault")
 
 
-def _next_relevant(prog, rel):
-    """f(p): the unique next relevant pc reachable from p through irrelevant instructions, or 'AMBIG'"""
-    memo = {}
+def _branch_relevance(prog, relev):
+    """which cj/nd instructions matter, given the set `relev` of relevant non-branch instructions:
+    a branch is irrelevant iff both successors meet at the same instruction before anything relevant
+    happens (branches already proven irrelevant are transparent)"""
     code = prog.code
+    proven = set()
 
-    def f(p, stack=()):
-        if p in (END, ABORT):
-            return p
-        if p in memo:
-            return memo[p]
-        if p in stack:
-            return "AMBIG"
-        if p >= len(code):
-            return END
-        i = code[p]
-        if p in rel:
-            r = p
-        elif i.op == "jmp":
-            r = f(i.c, stack + (p,))
-        elif i.op in ("cj", "nd"):
-            a = f(i.c, stack + (p,))
-            b = f(p + 1, stack + (p,))
-            r = a if a == b else "AMBIG"
-        else:
-            r = f(p + 1, stack + (p,))
-        memo[p] = r
-        return r
-    return f
+    def g(p):
+        seen = set()
+        while True:
+            if p in (END, ABORT):
+                return p
+            if p >= len(code):
+                return END
+            if p in seen:
+                return ("loop", p)
+            seen.add(p)
+            i = code[p]
+            if p in relev:
+                return p
+            if i.op == "jmp":
+                p = i.c
+            elif i.op in ("cj", "nd"):
+                if p in proven:
+                    p = p + 1
+                else:
+                    return p
+            else:
+                p = p + 1
+    branches = [k for k, i in enumerate(code) if i.op in ("cj", "nd")]
+    changed = True
+    while changed:
+        changed = False
+        for k in branches:
+            if k in proven:
+                continue
+            a, b = g(code[k].c), g(k + 1)
+            if a == b and not (isinstance(a, tuple)):
+                proven.add(k)
+                changed = True
+    return set(branches) - proven
 
 
 def slice_programs(progs):
     """marks irrelevant instructions as nop (jointly over all thread programs); returns relevant attrs"""
-    rel = [set(k for k, i in enumerate(p.code) if i.op in SEED_OPS) for p in progs]
+    relev = [set(k for k, i in enumerate(p.code) if i.op in SEED_OPS) for p in progs]
+    relbr = [set() for _ in progs]
     attrs = set()
     changed = True
     while changed:
         changed = False
         for pi, p in enumerate(progs):
             used = set()
-            for k in rel[pi]:
+            for k in relev[pi] | relbr[pi]:
                 i = p.code[k]
                 for v in (i.a, i.b) + (tuple(i.b) if (i.op == "cj" and i.a == "same") else ()):
                     if isinstance(v, tuple) and v and v[0] == "reg":
                         used.add(v[1])
             for k, i in enumerate(p.code):
-                if k in rel[pi]:
+                if k in relev[pi]:
                     continue
                 if i.op == "read" and i.a in used:
-                    rel[pi].add(k)
+                    relev[pi].add(k)
                     changed = True
-                    if i.b not in attrs:
-                        attrs.add(i.b)
-                elif i.op == "write" and i.a in attrs:
-                    rel[pi].add(k)
-                    changed = True
-            for k, i in enumerate(p.code):
-                if i.op == "read" and k in rel[pi] and i.b not in attrs:
                     attrs.add(i.b)
+                elif i.op == "write" and i.a in attrs:
+                    relev[pi].add(k)
                     changed = True
-            f = _next_relevant(p, rel[pi])
-            for k, i in enumerate(p.code):
-                if k in rel[pi] or i.op not in ("cj", "nd"):
-                    continue
-                a, b = f(i.c), f(k + 1)
-                if a != b or a == "AMBIG":
-                    rel[pi].add(k)
-                    changed = True
+            nb = _branch_relevance(p, relev[pi])
+            if nb != relbr[pi]:
+                relbr[pi] = nb
+                changed = True
     for pi, p in enumerate(progs):
-        f = _next_relevant(p, rel[pi])
         for k, i in enumerate(p.code):
-            if k in rel[pi] or i.op == "jmp":
+            if k in relev[pi] or k in relbr[pi] or i.op == "jmp":
                 continue
-            if i.op in ("cj", "nd"):
-                t = f(k + 1)
-                p.code[k] = Ins("jmp", c=t, pos=i.pos) if t != "AMBIG" else i
-            else:
-                p.code[k] = Ins("nop", pos=i.pos)
+            p.code[k] = Ins("nop", pos=i.pos)
     return attrs
 
 
@@ -1626,7 +1650,10 @@ class Bmc:
     calling a method on None raises AttributeError (the raising thread leaves through its handlers).
     Lock/RLock: acquire blocks; `with` releases on exceptions (lowered handler code)."""
 
-    def __init__(self, main, callbacks, fields_init, locks, T, B, firing=True, nfault=0):
+    def __init__(self, main, callbacks, fields_init, locks, T, B, firing=True, nfault=0, fault_any=None):
+        """fault_any: None | 'caller' | 'all' -- every execution of a fault site (by the caller / by any thread)
+        may raise (one free Bool per step) instead of the single symbolic fault index of H2"""
+        self.fault_any = fault_any
         self.main, self.cbs = main, callbacks
         self.cbnames = sorted(callbacks)
         self.T, self.B = T, B
@@ -1811,6 +1838,9 @@ class Bmc:
                 lo, hi = min(ids), max(ids)
                 if fk is None:
                     err = z3.BoolVal(False)
+                elif z3.is_bool(fk):
+                    err = fk
+                    upd["flt"] = z3.Or(upd["flt"], z3.And(g, err))
                 else:
                     err = z3.And(z3.UGE(fk, z3.BitVecVal(lo, self.fb)), z3.ULE(fk, z3.BitVecVal(hi, self.fb)))
                     upd["flt"] = z3.Or(upd["flt"], z3.And(g, err))
@@ -1840,6 +1870,7 @@ class Bmc:
         who = [z3.BitVec("who%d" % k, self.wb) for k in range(B)]
         ndv = [z3.Bool("nd%d" % k) for k in range(B)]
         fk = z3.BitVec("fault", self.fb) if self.nfault else None
+        self.fz = [z3.Bool("fz%d" % k) for k in range(B)] if self.fault_any else None
         self.S, self.who, self.ndv, self.fk = S, who, ndv, fk
         # sequential system (timers never fire): the caller's k-th step can only execute instructions at depth k
         seqwin = depth_windows(self.main) if not self.firing else None
@@ -1871,7 +1902,8 @@ class Bmc:
             window = None
             if seqwin is not None:
                 window = (lambda p, k=k: p in seqwin[0] and seqwin[0][p] <= k <= seqwin[1][p])
-            en, npc, nregs = self.thread_events(a, upd, mact, self.main, a["mpc"], a["mreg"], self.MAINTID, ndv[k], fk, window)
+            en, npc, nregs = self.thread_events(a, upd, mact, self.main, a["mpc"], a["mreg"], self.MAINTID, ndv[k],
+                                                (self.fz[k] if self.fault_any else fk), window)
             enabled.append(z3.And(mact, main_live, en))
             s.add(b["mpc"] == z3.If(mact, npc, a["mpc"]))
             for j in range(len(a["mreg"])):
@@ -1899,7 +1931,8 @@ class Bmc:
                             continue
                         tact = z3.And(iact, a["ts"][i] == RUNNING, a["tg"][i] == tix)
                         regs_t = a["creg"][i][:len(pr.regs)]
-                        e2, np2, nr2 = self.thread_events(a, upd, tact, pr, a["cpc"][i], regs_t, i, ndv[k], None)
+                        e2, np2, nr2 = self.thread_events(a, upd, tact, pr, a["cpc"][i], regs_t, i, ndv[k],
+                                                          self.fz[k] if self.fault_any == "all" else None)
                         en_i.append(z3.And(tact, e2))
                         npc_i = z3.If(tact, np2, npc_i)
                         for j in range(len(regs_t)):
@@ -1989,9 +2022,14 @@ class Bmc:
                 ins = self.main.code[pc]
                 st = {"thread": "main", "op": ins.op, "pc": pc, "line": ins.pos}
                 if ins.op == "fault":
-                    f = ev(self.fk) if self.fk is not None else None
-                    st["raises"] = bool(f is not None and any(s_[0] == f for s_ in ins.a))
-                    st["sites"] = [s_[0] for s_ in ins.a]
+                    if self.fault_any:
+                        st["raises"] = bool(m.eval(self.fz[k], model_completion=True))
+                        st["site"] = list(ins.a[0][3]) if len(ins.a[0]) > 3 and ins.a[0][3] else None
+                        st["what"] = ins.a[0][1]
+                    else:
+                        f = ev(self.fk) if self.fk is not None else None
+                        st["raises"] = bool(f is not None and any(s_[0] == f for s_ in ins.a))
+                        st["sites"] = [s_[0] for s_ in ins.a]
                 if ins.op == "nd":
                     st["taken"] = bool(m.eval(self.ndv[k], model_completion=True))
                 out.append(st)
@@ -2002,7 +2040,12 @@ class Bmc:
                     pr = self.cbs[self.cbnames[ev(a["tg"][w])]]
                     pc = ev(a["cpc"][w])
                     ins = pr.code[pc]
-                    out.append({"thread": "timer%d" % w, "op": ins.op, "pc": pc, "line": ins.pos})
+                    st = {"thread": "timer%d" % w, "op": ins.op, "pc": pc, "line": ins.pos}
+                    if ins.op == "fault":
+                        st["raises"] = bool(self.fault_any == "all" and m.eval(self.fz[k], model_completion=True))
+                        st["site"] = list(ins.a[0][3]) if len(ins.a[0]) > 3 and ins.a[0][3] else None
+                        st["what"] = ins.a[0][1]
+                    out.append(st)
         k_end = len(out)
         a = self.S[k_end]
         final = {"timers": [TS_NAMES[ev(x)] for x in a["ts"]], "main": "returned" if ev(a["mpc"]) == self.ENDPC else
@@ -2015,6 +2058,43 @@ class Bmc:
                 final = {"timers": [TS_NAMES[ev(x)] for x in a["ts"]], "main": "returned" if ev(a["mpc"]) == self.ENDPC else "raised"}
                 break
         return out, final
+
+
+def merge_faults(prog):
+    """adjacent fault instructions with the same handler (and no jump target in between) become one event:
+    'one of these calls raises'"""
+    code = prog.code
+    targets = {getattr(prog, "entry", 0)}
+    for i in code:
+        if i.op in ("jmp", "cj", "nd") and isinstance(i.c, int):
+            targets.add(i.c)
+        if isinstance(i.err, int):
+            targets.add(i.err)
+    for (_, lo, hi) in prog.segs:
+        if lo is not None:
+            targets.add(lo)
+    new, idx = [], {}
+    for k, i in enumerate(code):
+        if i.op == "fault" and new and new[-1].op == "fault" and k not in targets and new[-1].err == i.err and idx.get(k - 1) == len(new) - 1:
+            new[-1].a = list(new[-1].a) + list(i.a)
+            idx[k] = len(new) - 1
+            continue
+        idx[k] = len(new)
+        new.append(i.copy())
+
+    def m(t):
+        return idx[t] if isinstance(t, int) else t
+    for i in new:
+        if i.op in ("jmp", "cj", "nd"):
+            i.c = m(i.c)
+        if i.err is not None:
+            i.err = m(i.err)
+    out = Program(prog.name)
+    out.code = new
+    out.entry = m(getattr(prog, "entry", 0))
+    out.regs = list(prog.regs)
+    out.segs = [(nm, m(lo) if lo is not None else None, (m(hi - 1) + 1) if hi is not None else None) for nm, lo, hi in prog.segs]
+    return out
 
 
 def longest_path(prog, cyclic=None):
